@@ -13,6 +13,7 @@ import EaselModel.Random.UniPosTerm
 import EaselModel.Random.LcgTerm
 import EaselModel.Random.RollSpec
 import EaselModel.Random.SamplersTerm
+import EaselModel.Random.Deal64Small
 /-! # C09 — property theorems (statements + glue only; lemmas live in Random/*.lean)
 
 Every theorem quantifies over all seeds / all stream positions / all states; none is bounded. -/
@@ -231,6 +232,16 @@ theorem vitter_a_terminates {F : Type} [VOps F] {B : Int} (ff : FloatFacts F B) 
     (fuel : Nat) (m n j : Int) (acc : List Int) (s : σ) (hm : 1 ≤ m) (hmn : m ≤ n) (hnB : n ≤ B) (hfuel : n - m < fuel) :
     (vitterA (F := F) next fuel m n j acc s).isSome :=
   vaLoop_terminates ff next fuel m.toNat m j n _ _ acc s hm hmn hnB rfl rfl (by omega) hfuel
+
+/-- `esl_rand64_Deal(m, n)` with `n ≤ 13·m` terminates for EVERY generator state: the method-D loop is not entered (`n > threshold`
+    fails at once), the sample comes from `vitter_a` (method A) or, for `m = 1`, from the final `floor(n·Vprime)` step; fuel `n-m+1`
+    suffices.  (For `n > 13·m` method D's floating-point rejection loops keep their fuel.) -/
+theorem rand64_deal_small_terminates {F : Type} [VOps F] {B : Int} (ff : FloatFacts F B) {σ : Type} (next : σ → UInt64 × σ)
+    (fuel : Nat) (m n : Int) (hm : 1 ≤ m) (hmn : m ≤ n) (hsmall : n ≤ 13 * m) (hnB : n ≤ B) (hfuel : n - m < fuel) (s : σ) :
+    (deal64Core (F := F) next fuel m n s).isSome :=
+  deal64Core_small_terminates ff next fuel m n hm hmn hsmall hnB hfuel s
+
+example : (1 : Int) ≤ 5 ∧ (5 : Int) ≤ 52 ∧ (52 : Int) ≤ 13 * 5 ∧ (52 : Int) ≤ 2 ^ 53 := by decide
 
 /-- instantiated at the EXECUTABLE model the driver runs against the C code (`Float` = binary64, libm `exp`/`log`): whatever
     `esl_rand64_Deal`'s model returns for `1 ≤ m ≤ n ≤ 2^53` on the MT19937-64 generator in any state is `m` strictly increasing
